@@ -41,7 +41,7 @@ def run_rm(ctx, p):
     pat, V = RC.probe(ctx, "IGEOS", st, xd0, t)
     span = max(float(V.max() - V.min()), 1e-3 * (abs(V).max() + 1e-300)) * t
     a, b = xd0 + t * V.min() - 0.4 * span, xd0 + t * V.max() + 0.4 * span
-    cell = (b - a) / 10000.0
+    cell = RC.geneos_cell(ctx, st, xd0, a, b, t) if gen else (b - a) / 10000.0
     X = [a] + [xd0 + t * v for v in V] + [b]
     pts = []
     m = 3.5 * cell if gen else 1e-9 * span
